@@ -5,6 +5,7 @@ pid = sys.argv[1]; n = sys.argv[2] if len(sys.argv) > 2 else "a"
 HINTS = {
  "a": "prefer a change in the main control path (ordering, guards, state updates).",
  "n": "prefer a change OUTSIDE the function that most obviously implements the property: a helper two calls away, a sibling package it relies on (pkg/cache, pkg/store, pkg/sync, pkg/p2p, types, core/*, node wiring, configuration defaults), a constructor or option that sets up the state the property depends on, or the interaction of two functions that each stay correct alone. Changes that add a small feature or optimisation (a cache, a fast path, batching, a retry, a metric, a validation) and get one corner wrong are especially welcome.",
+ "p": "prefer a change in how a FAILURE or an ABSENCE is handled rather than in the normal path: an error swallowed, logged instead of returned, retried, or wrapped into a different class; a partial result kept (or a side effect left behind) after a failure; a cleanup or rollback skipped on an error path; a timeout or cancellation treated like success or like a permanent fault; a default silently substituted for a value that could not be read; a 'not found' / empty / nil / zero case that takes the wrong branch. The normal path must stay exactly as it is.",
  "o": "prefer a change that alters WHEN something happens rather than WHAT happens (an operation moved before/after another, done once instead of every time, done lazily, deferred, skipped when 'nothing changed', done in the background), or WHICH instance is used (a shared value instead of a fresh one, the wrong one of two similar fields/caches/keys, a stale copy).",
 }
 p = [json.loads(l) for l in open(os.path.join(here, "properties.jsonl")) if json.loads(l)["id"] == pid][0]
